@@ -21,6 +21,11 @@ def stage(ev, vd, d, quick):
     ev.add_tlc('design: Simplify.tla loop (Keep/Drop/Return) meets Post on every staircase route of <= %d legs with <= %d checkpoints' % (legs, maxcp), r)
     if r.violated:
         raise V.Broken('Simplify.tla: the design model does not meet its own postcondition\n' + r.out[-2000:])
+    # the same model with the re-indexing rule the code had before fix 98eb188 must violate Post (the model can tell the two apart)
+    rb = V.tlc(SP, os.path.join(V.SPEC, 'avoid', 'SimplifyDesign_before.cfg'), env={'SIMPRECS': '/dev/null'}, timeout=300, workers=4)
+    ev.cov['simplify_model_of_the_code_before_fix_98eb188_violates_Post'] = bool(rb.violated)
+    if not rb.violated:
+        raise V.Broken('Simplify.tla with FIX = FALSE no longer violates Post: the design model lost its discriminating power')
     # B1: the same instances written out and run through the real Polygon::simplify()
     gf = os.path.join(d, 'simp_inst.json')
     V.tlc(SP, _cfg(d, 'simp_gen', 'GenSpec', legs, maxcp, None), env={'SIMPGEN': gf, 'SIMPRECS': '/dev/null'}, workers=1, timeout=900, mem='8g')
